@@ -160,8 +160,30 @@ def check_case(case):
         diffs = observe.compare_records({"error": None, "confs": {"X": rec["confs"][rec["conf_names"][0]]}},
                                         {"error": None, "confs": {"X": rec["confs"]["AVR"]}}, tol=0.0)
         diffs = [d for d in diffs if "present only in first" not in d["diffs"][0]]   # AVR holds reported groups only
-        if diffs:
-            v.append({"clause": "single-conformation==average", "detail": common.fmt_diffs(diffs)})
+        # the average merges several determinants towards one partner into their sum: compare per-partner sums
+        keep = []
+        only = rec["confs"][rec["conf_names"][0]]
+        ia, _ = observe.index_groups(only)
+        ib, _ = observe.index_groups(rec["confs"]["AVR"])
+        for d in diffs:
+            if all("determinants" in x for x in d["diffs"]):
+                k = next((k for k in ia if k[0] == d["key"] and k in ib), None)
+                if k is not None:
+                    same = True
+                    for t in observe.DET_TYPES:
+                        sa, sb = collections.defaultdict(float), collections.defaultdict(float)
+                        for pk, _l, val in ia[k]["dets"][t]:
+                            sa[pk] += val
+                        for pk, _l, val in ib[k]["dets"][t]:
+                            sb[pk] += val
+                        if set(sa) != set(sb) or any(abs(sa[x] - sb[x]) > 1e-12 for x in sa):
+                            same = False
+                    if same:
+                        continue
+            keep.append(d)
+        if keep:
+            v.append({"clause": "single-conformation==average", "detail": common.fmt_diffs(keep),
+                      "key": keep[0]["key"], "keys": [d["key"] for d in keep]})
     if case.get("single_text"):
         # identical models: every conformation and the average equal the single-model run
         rs = observe.run(case["single_text"], [], name="a")
@@ -179,6 +201,8 @@ def check_case(case):
             pos = x.get("pos")
             if pos is not None and (pos[0], pos[1]) in tw:
                 x["sig"] = "icode-twin"
+            elif "keys" in x:
+                x["sig"] = common.twin_sig(text, x["keys"])
             elif "key" in x:
                 x["sig"] = common.twin_sig(text, [x["key"]])
     if subset:
@@ -216,6 +240,19 @@ def run_shard(ctx):
         ctx.account(case, v, ci)
 
     ctx.hypothesis_stage("multi-conformation", cases(), body, 2500 if quick else 36000)
+
+    # corollary on arbitrary single-conformation structures (ligand copies whose groups share a label, ions, several
+    # chains): the average reports exactly the only conformation
+    def single_body(s):
+        case = {"pdb": s.text}
+        v, ci = check_case(case)
+        ci["labels"] = ci.get("labels", []) + ["single-any-structure"]
+        ci["nontrivial"] = any(l.startswith("lig:") for l in s.labels)
+        ci["sample"] = {"structure": s.summary(), "clause": "single conformation == average"}
+        ctx.account(case, v, ci)
+
+    ctx.hypothesis_stage("single-conformation-structures", gen.structures(max_res=30 if quick else 60), single_body,
+                         700 if quick else 9000)
 
     names = ["conf-alt-AB-mutant", "conf-alt-AB", "conf-alt-BC", "conf-model-missing-atoms", "conf-model-mutant",
              "4DFR"]
